@@ -68,6 +68,9 @@ var newUClientConnection = func(
 		connIDGenerator,
 	)
 	s.ctx, s.ctxCancel = context.WithCancelCause(ctx)
+	// [UQUIC] The flow controllers and the streams map built by preSetup enforce Config's
+	// limits, while the ClientHello advertises the spec's. Enforce at least what is advertised.
+	s.config = uSpec.configEnforcingAdvertisedLimits(s.config)
 	s.preSetup()
 	// [UQUIC] A QUICSpec is authoritative over the Initial CRYPTO framing (via
 	// InitialPacketSpec.FrameBuilder), and uPacketPacker re-frames every Initial
